@@ -213,7 +213,34 @@ def long_inputs(check, tier):
     s.done()
 
 
+def str_arguments(check, tier):
+    """linesplit takes a plain str as well (it is text, parsed like fmtstr does): the same wrap as for the FmtStr it denotes - in particular
+    for a str that carries escape sequences (it is LONGER than its text) and begins / ends with whitespace"""
+    from curtsies.formatstring import linesplit
+    bodies = ["\x1b[31mhello\x1b[39m world", "\x1b[31mword\x1b[39m", "a \x1b[1mbb\x1b[0m  c", "plain text here", "\x1b[20munsupported\x1b[0m x",
+              "\x1b[44m \x1b[49mx", "one"]
+    s = Suite(check, "C16.str_arguments", f"linesplit(<plain str>, columns) for {len(bodies)} texts (with supported / unsupported escape sequences, without) x leading "
+              "'' / blank / newline x trailing '' / blank / two blanks / newline x columns 3, 5, 10, 20: judged like the FmtStr the str denotes",
+              bound=f"{len(bodies) * 3 * 4 * 4} calls")
+    for body in bodies:
+        for pre in ("", " ", "\n"):
+            for post in ("", " ", "  ", "\n"):
+                text = pre + body + post
+                f = fmtstr(text)
+                for columns in (3, 5, 10, 20):
+                    s.case((text, columns), sample=dict(text=text, columns=columns) if len(s.samples) < 2 else None)
+                    try:
+                        got = linesplit(text, columns)
+                        d = _judge_once(f, columns, got=got)
+                    except Exception as e:      # noqa: BLE001
+                        d = f"raised {type(e).__name__}: {e}"
+                    if d:
+                        s.fail("C16.linesplit.str_argument", dict(text=text, columns=columns), d[:300])
+    s.done()
+
+
 def run(check, tier, seed):
+    str_arguments(check, tier)
     bounded(check, tier, seed)
     derived(check, tier, seed)
     long_inputs(check, tier)
